@@ -91,7 +91,7 @@ func errorRule(r *Report, p *Program, rule string, floor int, only func(f *ssa.F
 		if only != nil && !only(f) {
 			continue
 		}
-		for _, b := range f.Blocks {
+		for _, b := range engine.BlocksInl(f) {
 			for _, in := range b.Instrs {
 				ci, ok := in.(ssa.CallInstruction)
 				if !ok || seen[in] {
@@ -202,7 +202,7 @@ func r12_2(r *Report, p *Program) {
 		// returns the aggregate
 		if engine.ErrorResultIndex(f) >= 0 && worked {
 			okA := true
-			for _, b := range f.Blocks {
+			for _, b := range engine.BlocksInl(f) {
 				for _, in := range b.Instrs {
 					if rt, isR := in.(*ssa.Return); isR {
 						v := engine.RetVal(rt, engine.ErrorResultIndex(f))
@@ -331,7 +331,7 @@ func r12_4b(r *Report, p *Program, rule string) {
 	for _, f := range fs {
 		ei := engine.ErrorResultIndex(f)
 		ok, why := true, ""
-		for _, b := range f.Blocks {
+		for _, b := range engine.BlocksInl(f) {
 			for _, in := range b.Instrs {
 				rt, isR := in.(*ssa.Return)
 				if !isR {
@@ -376,8 +376,10 @@ func r12_4(r *Report, p *Program) {
 		is429 := func(l Lit) bool { return strings.HasSuffix(l.Atom, ".StatusCode == 429)") }
 		var from []engine.Point
 		var call *ssa.Function // the function holding the 429 test: Call or a helper it was split into
-		for _, g := range rg.fns {
-			for _, b := range g.Blocks {
+		fnsAll := append([]*ssa.Function(nil), rg.fns...)
+		fnsAll = append(fnsAll, engine.InlinedUnder(root)...)
+		for _, g := range fnsAll {
+			for _, b := range engine.BlocksInl(g) {
 				for i := range b.Succs {
 					if l, ok := engine.EdgeLit(b, i); ok && l.Pos && is429(l) {
 						if call == nil || call == g {
@@ -437,7 +439,7 @@ func r12_4(r *Report, p *Program) {
 		if ok {
 			var from []engine.Point
 			asv := as[0].Instr.Value()
-			for _, b := range sy.Blocks {
+			for _, b := range engine.BlocksInl(sy) {
 				for i := range b.Succs {
 					if l, has := engine.EdgeLit(b, i); has && l.Pos && engine.SameValue(l.Cond, asv) {
 						from = append(from, engine.Point{B: b.Succs[i]})
@@ -554,7 +556,7 @@ func r12_5(r *Report, p *Program) {
 			continue
 		}
 		if ini := p.Prog.Package(pk.Types).Func("init"); ini != nil {
-			for _, b := range ini.Blocks {
+			for _, b := range engine.BlocksInl(ini) {
 				for _, in := range b.Instrs {
 					if st, ok := in.(*ssa.Store); ok && E(st.Addr) == "global(controller/common.KeyFunc)" {
 						okK = E(st.Val) == "func(cache.DeletionHandlingMetaNamespaceKeyFunc)"
@@ -586,7 +588,7 @@ func r12_5(r *Report, p *Program) {
 	okS := sep != "" && nf > 0
 	// error unless exactly nf parts
 	if okS {
-		for _, b := range sp.Blocks {
+		for _, b := range engine.BlocksInl(sp) {
 			for _, in := range b.Instrs {
 				if rt, isR := in.(*ssa.Return); isR && engine.ReturnsNilError(rt) {
 					w := unguarded(sp, nil, rt, func(l Lit) bool {
@@ -602,7 +604,7 @@ func r12_5(r *Report, p *Program) {
 	r.Check(rule, FK(sp)+"[parser]", p.Pos(sp.Pos()), okS, sf("SplitN(key, %q, %d), error unless %d fields", sep, nf, nf), "splitParentQueueKey is not a fixed-arity split with an arity check")
 	// every successful return of parentQueueKey yields a string in that domain
 	n := 0
-	for _, b := range pq.Blocks {
+	for _, b := range engine.BlocksInl(pq) {
 		for _, in := range b.Instrs {
 			rt, isR := in.(*ssa.Return)
 			if !isR || !engine.ReturnsNilError(rt) {
@@ -650,7 +652,7 @@ func r12_10(r *Report, p *Program) {
 	r.Floor(rule, 2)
 	if f := fn(r, p, rule, "hooks.NewWebhookExecutor"); f != nil {
 		ok, why := false, "no http.Client literal found"
-		for _, b := range f.Blocks {
+		for _, b := range engine.BlocksInl(f) {
 			for _, in := range b.Instrs {
 				a, isA := in.(*ssa.Alloc)
 				if !isA || !strings.HasSuffix(deref(a.Type()).String(), "net/http.Client") {
